@@ -397,6 +397,12 @@ func (p *Prog) timeoutEmitSites() []timeoutEmitSite {
 					case Match(a, "binop(/,$T,const($D))", env) || a.Op == "binop" && a.Name == "/" && len(a.Args) == 2 && a.Args[1].Op == "const":
 						var d int64
 						fmt.Sscan(a.Args[1].Name, &d)
+						// the dividend is the time remaining until the caller's deadline, measured now
+						if !a.Args[0].Has(func(x *Term) bool {
+							return x.Op == "call" && x.Name == "time.Until" && len(x.Args) == 1 && x.Args[0].Has(func(y *Term) bool { return y.Op == "call" && strings.HasSuffix(y.Name, "Context).Deadline#0") })
+						}) {
+							st.other = "the value divided is " + a.Args[0].String() + ", not time.Until(ctx.Deadline())"
+						}
 						if st.divisor >= 0 && st.divisor != d {
 							st.other = "two different divisors"
 						}
